@@ -544,6 +544,13 @@ def gen_case(rng, thorough=False):
             case["files"]["default.cfg"] = ""
     if rng.random() < 0.25:
         case["files"]["good"] = dump_obj(jsonable_obj(rng, shape, m), mode, rng)
+    if method in ("parse_args", "parse_string", "parse_object") and rng.random() < 0.12:
+        case["history"] = gen_history(rng, shape, m)
+        if method == "parse_args" and rng.random() < 0.7:
+            # a call that is (very likely) valid: the history must not change that
+            case["input"] = [a % {"m": m} for a in rng.choice(VALID_ARGV[shape])]
+            case["variant"].update(required=(shape == "subcommands"), positional=False)
+            return case
     if method == "parse_args":
         case["input"] = gen_argv(rng, shape, m)
         if rng.random() < 0.15:
@@ -565,6 +572,41 @@ def gen_case(rng, thorough=False):
         else:
             case["input"] = rng.choice(["@M", "@D", "", "-", "@F:bin", "@F:empty", "@F:list", "@F:alias", "@F:bad", "@F:good", "adir", "/", "/dev/null", "@F:good/x", "\x00", "a\nb"])
     return case
+
+
+VALID_ARGV = {
+    "leaves": [["--i=2"], ["--s=y", "--li=[1, 2]"], []],
+    "groups": [["--g.a=2"], ["--dc.x=3"], []],
+    "subcommands": [["s1", "--a=2"], ["s1"], ["--t=1", "s1", "--lst=[1]"]],
+    "subclass": [[], ["--c=%(m)s.Sub"], ["--dm=%(m)s.Base"]],
+    "cfgfile": [["--i=2"], ["--cfg", "i: 3"], []],
+    "defcfg": [["--i=2"], []],
+    "links": [["--a=2"], ["--x.a=3"], []],
+}
+
+
+def gen_history(rng, shape, m):
+    """one or two earlier parse_args argv lists for the same parser: every way of being rejected, with a --print_config
+    request before or after the rejected item (a request that is consumed and then abandoned must not survive)"""
+    opt = rng.choice(OPTS[shape])
+    pc = rng.choice(["--print_config", "--print_config", "--print_config=skip_null", "--print_config="])
+    kinds = [
+        [pc, "extra"],                                   # unrecognized arguments: direct self.error
+        [pc, "--zz=1"],                                  # unknown option
+        [pc, "--" + opt],                                # option without its value: argparse error via parse_known_args
+        [pc, "--%s=%s" % (opt, gen_value(rng, m))],      # (probably) a bad value: TypeError path
+        [pc, "--%s.zz=1" % opt],
+        ["extra", pc], ["--zz=1", pc], ["--" + opt, pc],
+        [pc, pc + "zz"], [pc], ["--help"], ["--print_shtab=bash"], ["--print_shtab=bash", "--zz"],
+    ]
+    if shape == "leaves":
+        kinds += [[pc, "--ch=z"], [pc, "--plain", "x"], [pc, "--yn=maybe"]]
+    if shape == "subcommands":
+        kinds += [[pc, "s1", "--zz=1"], [pc, "s3"], [pc, "s1", "--a"], ["s1", pc, "--a=x"], ["s1", pc, "junk"], [pc, "s2", "z"], [pc, "s1", "--a=x"]]
+    out = [rng.choice(kinds)]
+    if rng.random() < 0.25:
+        out.append(gen_argv(rng, shape, m))
+    return out
 
 
 def mutate_text(rng, s):
@@ -699,7 +741,7 @@ def frames_of(tb):
     return out
 
 
-def run_case(case):
+def run_case_raw(case):
     """run one parse call on the real code; returns a JSON-able result"""
     import jsonargparse
     from jsonargparse import ArgumentError, Namespace
@@ -736,6 +778,30 @@ def run_case(case):
                 vv = resolve_str(v, files_dir)
                 if "\x00" not in vv and "\x00" not in var and var:
                     os.environ[var] = vv
+        hist_out = []
+        for prior in case.get("history") or []:
+            # earlier parse_args calls on the SAME parser object; whatever they do is swallowed
+            sys.stdin = io.StringIO("")
+            old_h = signal.signal(signal.SIGALRM, _alarm)
+            signal.setitimer(signal.ITIMER_REAL, CASE_TIMEOUT)
+            try:
+                with contextlib.redirect_stderr(io.StringIO()), contextlib.redirect_stdout(io.StringIO()):
+                    parser.parse_args([resolve_str(a, files_dir) for a in prior])
+                hist_out.append("ok")
+            except CaseTimeout:
+                hist_out.append("timeout")
+            except SystemExit as ex:
+                hist_out.append("exit:%r" % (ex.code,))
+            except BaseException as ex:  # noqa: BLE001 - the history is only a preparation
+                hist_out.append("raise:" + type(ex).__name__)
+            finally:
+                signal.setitimer(signal.ITIMER_REAL, 0)
+                signal.signal(signal.SIGALRM, old_h)
+            with contextlib.suppress(OSError):
+                os.chdir(files_dir)
+        if hist_out:
+            res["history_outcomes"] = hist_out
+            tracer.start()  # the attribution is about the judged call only
         if case.get("stdin") == "closed":
             s = io.StringIO("")
             s.close()
@@ -811,6 +877,22 @@ def run_case(case):
     res["stderr"] = err.getvalue()[-400:]
     res["stderr_usage"] = "usage:" in err.getvalue()
     res["stderr_error"] = bool(re.search(r"^error: ", err.getvalue(), re.M))
+    return res
+
+
+def run_case(case):
+    """run_case_raw + the history oracle: a call that returns normally on a fresh parser must also return normally on a
+    parser that has seen earlier (possibly rejected) parse_args calls"""
+    res = run_case_raw(case)
+    # (after an earlier call that SUCCEEDED in printing help / config / a completion script and exiting 0 the process is
+    # gone: re-using that parser is outside the property; --print_shtab in particular rewrites the parser's actions)
+    if case.get("history") and res["outcome"] != "ok" and "exit:0" not in (res.get("history_outcomes") or []):
+        fresh = dict(case)
+        fresh.pop("history", None)
+        r0 = run_case_raw(fresh)
+        if r0["outcome"] == "ok":
+            res["history_dev"] = ("%s returns a configuration on a fresh parser but ends in %s after %d earlier parse_args call(s) on the same parser"
+                                  % (case["method"], res["outcome"], len(case["history"])))
     return res
 
 
@@ -1067,6 +1149,8 @@ def deviation(case, res):
     eoe = case["eoe"]
     if o == "ok":
         return None
+    if res.get("history_dev"):
+        return res["history_dev"]
     if o == "timeout":
         return "the parse call did not return within %.0f s" % CASE_TIMEOUT
     if o == "argerr":
@@ -1290,6 +1374,8 @@ def run(ctx: Ctx):
         "inputs stay inside the declared parameter types (argv: list of str, object: dict with str keys or Namespace, text/path: str, env: str->str)",
         "container nesting depth <= 40 (RecursionError from sheer depth is not hunted; a self-referential alias is a finite input and is)",
         "JSONARGPARSE_DEBUG unset, no error_handler, no logger",
+        "histories: a parser is re-used after REJECTED parse_args calls; re-use after a call that printed help / config / completion and exited 0 is "
+        "only judged by the channel of the later call (ArgumentError / exit 2), not by 'returns like a fresh parser'",
         "the region / call structure of Core/ExcFlow.lean is hand-written; it is validated by the dynamic stage attribution, not proved",
     ]
     ctx.lean_build(extractors=["excflow"])
@@ -1316,6 +1402,7 @@ def run(ctx: Ctx):
         ctx.hist("shape", case["shape"])
         ctx.hist("mode", case["mode"])
         ctx.hist("exit_on_error", case["eoe"])
+        ctx.hist("history", len(case.get("history") or []))
         verdict = judge(ctx, case, res, origin, stats)
         root = res.get("root")
         ev = res.get("events") or []
